@@ -26,7 +26,7 @@ def jobs(unit, tier, only=None):
         for m in methods:
             out.append(Job('c10_L%d_%s' % (L, m.id), 'FixedString<L>::' + m.call, 'cw_' + m.id,
                            fs.make_build(unit, m, L, K, False, methods), backend='sat',
-                           unwind=K + L + 4, timeout=300, instance={'L': L, 'K': K},
+                           unwind=K + L + 4, timeout=300 if tier == 'quick' else 2400, instance={'L': L, 'K': K},
                            bounded=None))
     # the 255/256 length-type boundary (uint8_t / uint16_t length field): "light" contracts (invariant + safety, no content
     # ghosts) for the methods that finish there (measured); thorough tier only
